@@ -172,7 +172,7 @@ fn line_bounds(src: &str, off: usize) -> (usize, usize) {
 /// Rule-violating statements (one per documented rule that can be broken by inserting a statement).
 /// `{I}` = indentation. Every base function starts with `imm_x = 0` and `opt_v = Some(1)`; Pt, Color, helper_ok,
 /// takes_int are declared by the base program.
-pub const RULES: [(&str, &str); 21] = [
+pub const RULES: [(&str, &str); 26] = [
     ("ctor-no-arguments", "{I}zz_tmp = Pt()\n"),
     ("ctor-wrong-field-type", "{I}zz_tmp = Pt(x=1, y=\"two\")\n"),
     ("unknown-name", "{I}zz_tmp = zz_unknown_name + 1\n"),
@@ -187,6 +187,11 @@ pub const RULES: [(&str, &str); 21] = [
     ("return-wrong-type", "{I}return (1, 2, 3)\n"),
     ("return-nothing", "{I}return\n"),
     ("mutating-method-on-immutable", "{I}zz_imm_box = Box(w=1, h=2)\n{I}zz_imm_box.grow(1)\n"),
+    ("try-in-closure-in-non-result-fn", "{I}zz_f = (zz_k) => helper_ok(zz_k)?\n"),
+    ("unknown-name-in-closure", "{I}zz_f = (zz_k) => zz_k + zz_unknown_name\n"),
+    ("unknown-name-in-comprehension", "{I}zz_l = [zz_unknown_name + zz_i for zz_i in range(2)]\n"),
+    ("unknown-name-in-comprehension-filter", "{I}zz_l = [zz_i for zz_i in range(2) if zz_unknown_name > zz_i]\n"),
+    ("field-assign-immutable", "{I}zz_imm_pt = Pt(x=1, y=2)\n{I}zz_imm_pt.x = 5\n"),
     ("try-on-non-result", "{I}zz_tmp = imm_x?\n"),
     ("try-in-non-result-fn", "{I}zz_tmp = helper_ok(1)?\n"),
     ("match-missing-variant", "{I}match opt_v:\n{I}    Some(zz_q) =>\n{I}        pass\n"),
@@ -283,7 +288,7 @@ pub fn run(out: &mut Out, tier: &str, seed: u64, _scratch: &str) {
             if !indent.chars().all(|c| c == ' ') || b.func.starts_with("twin_") { continue; }
             for (rule, snippet) in RULES.iter().chain(KNOWN_RULES.iter()) {
                 // `?` is legal inside a function returning Result: that rule is about the other functions
-                if *rule == "try-in-non-result-fn" && b.returns.starts_with("Result") { continue; }
+                if (*rule == "try-in-non-result-fn" || *rule == "try-in-closure-in-non-result-fn") && b.returns.starts_with("Result") { continue; }
                 if *rule == "return-wrong-type" && b.returns.starts_with('(') { continue; }
                 // a bare `return` is legal where nothing is returned
                 if *rule == "return-nothing" && (b.returns.is_empty() || b.returns == "None" || b.returns == "Unit" || b.returns == "()") { continue; }
@@ -312,16 +317,18 @@ pub fn run(out: &mut Out, tier: &str, seed: u64, _scratch: &str) {
     for d in 0..=max_d {
         for bd in 0..=d {
             for is_mut in [false, true] {
-                for kind in ["plain", "let", "mut", "compound"] {
+                for kind in ["plain", "let", "mut", "compound", "method", "field", "index"] {
                     let variants = if tier == "thorough" { nests.len() } else { 2 };
                     for v in 0..variants {
                         // an earlier function binds the same name mutably: bindings of other functions must not matter
-                        let mut src = String::from("def twin() -> int:\n    mut x = 1\n    x += 1\n    x = x + 1\n    return x\n\ndef f(flag: bool, xs: List[int], o: Option[int]) -> int:\n");
+                        let mut src = String::from("class Box:\n    w: int\n    h: int\n\n    def grow(mut self, by: int) -> None:\n        self.w = self.w + by\n\ndef twin() -> int:\n    mut x = 1\n    x += 1\n    x = x + 1\n    return x\n\ndef f(flag: bool, xs: List[int], o: Option[int]) -> int:\n");
+                        let prefix_lines = src.lines().count();
+                        let init = match kind { "method" | "field" => "Box(w=1, h=2)", "index" => "[1, 2]", _ => "0" };
                         let mut indent = String::from("    ");
                         let mut lines: Vec<String> = Vec::new();
                         for level in 0..=d {
                             if level == bd {
-                                lines.push(format!("{indent}{}x = 0", if is_mut { "mut " } else { "" }));
+                                lines.push(format!("{indent}{}x = {init}", if is_mut { "mut " } else { "" }));
                             }
                             if level < d {
                                 let nest = nests[(v + level + rng.below(nests.len() as u64) as usize) % nests.len()];
@@ -339,11 +346,14 @@ pub fn run(out: &mut Out, tier: &str, seed: u64, _scratch: &str) {
                             "plain" => format!("{indent}x = 5"),
                             "let" => format!("{indent}let x = 5"),
                             "mut" => format!("{indent}mut x = 5"),
+                            "method" => format!("{indent}x.grow(1)"),
+                            "field" => format!("{indent}x.w = 5"),
+                            "index" => format!("{indent}x[0] = 5"),
                             _ => format!("{indent}x += 5"),
                         });
                         src.push_str(&lines.join("\n"));
                         src.push_str("\n    return 0\n");
-                        let line_start: usize = src.lines().take(marker + 7).map(|l| l.len() + 1).sum();
+                        let line_start: usize = src.lines().take(marker + prefix_lines).map(|l| l.len() + 1).sum();
                         let line_end = line_start + lines[marker].len();
                         let verdict = match catch(|| check(&src)) {
                             Err(m) => format!("panic {m}"),
